@@ -179,7 +179,7 @@ def register(reg):
                  "ncalls('store:self.unacked_reliable') <= 1",
                  "implies(ncalls('store:self.unacked_reliable') == 1, called_with('store:self.unacked_reliable', "
                  "lambda key, value: key[0] == message.direction and key[1] == message.packet_id))"],
-        frame=["message.finalized", "message.packet_id", "message.synthetic", "message.acks", "message.send_flags",
+        frame=["message.finalized", "message.packet_id", "message.synthetic", "message.acks", "message.send_flags", "self.unacked_reliable",
                "self.in_injections.injections", "self.in_injections._injection_base", "self.in_injections._packet_id_base",
                "self.out_injections.injections", "self.out_injections._injection_base", "self.out_injections._packet_id_base"]))
 
